@@ -396,7 +396,8 @@ def run(rep, tier, seed):
     rep.bound(f"open trees: ref_trees(allow_open=True) with <= {max_nodes} nodes rooted in the start "
               f"symbol and in every other nonterminal (both epsilon styles), at most {cap_open} per "
               f"(grammar, root) spread evenly over the enumeration; closed trees for mutate: "
-              f"<= max(ENUM_NODES, 9) nodes, at most {cap_closed} per grammar")
+              f"<= max(ENUM_NODES, 9) nodes, at most {cap_closed} per grammar rooted in the start symbol plus a few rooted in "
+              f"every other nonterminal")
     rep.bound(f"random choices: seeds {seeds}; thorough tier: choice oracle enumerating the first "
               f"{DEPTH} decisions depth-first (at most {ORACLE_RUNS_EXPAND} runs per open tree, "
               f"{ORACLE_RUNS_MUTATE} per closed tree; sections.*-oracle.oracle_exhausted counts the trees "
@@ -446,6 +447,16 @@ def run(rep, tier, seed):
                  ("strategy:replace_subtree_randomly", "Mutator", seeds, 0, False, 0),
                  ("strategy:generalize_subtree", "Mutator", seeds, 0, False, 0),
                  ("strategy:swap_subtrees", "Mutator", seeds[:2], 0, False, 0)]
+        # closed trees rooted in the other nonterminals as well (Mutator accepts any closed tree; the result must
+        # keep ITS root symbol, not become a <start> tree)
+        for root_nt in [nt for nt in g if nt != start]:
+            try:
+                sub_closed = closed_structs(g, root_nt, max(enum_nodes, 9), 4 if quick else 12)
+            except Exception:  # noqa
+                sub_closed = []
+            sub_closed = [s_ for s_ in sub_closed if s_ not in closed]
+            n_closed += len(sub_closed)
+            closed = closed + sub_closed
         for i in range(0, len(closed), 10):
             tasks.append(dict(gname=name, grammar=g, family="mutate",
                               structs=[struct_json(s) for s in closed[i:i + 10]], plans=plans))
